@@ -268,6 +268,122 @@ def h_divided(max_payload):
                             "optionally preceded by an output line that is a divider with any other 4-letter salt" % max_payload)
 
 
+# ---- (d) the single-script (Cram) executor: compile_script ------------------------------------------------------------------------
+
+SCRIPT_ALPHA = "a\\ \""
+
+
+def h_compile_script(max_len):
+    """compile_script on 1–2 test cases with symbolic expressions: every expression stands in the script verbatim on its own line(s), in
+    order, and the `echo <divider>` that follows it is a command of its own — the line before it does not end in an unescaped backslash"""
+    from mir_exec import MapBuf, mk_struct, new_ref, find_method
+
+    def mk(lens, combined):
+        def setup(ctx):
+            exprs = []
+            tcs = []
+            for i, n in enumerate(lens):
+                chars = [ctx.sym_char("e%d_%d" % (i, j), 1) for j in range(n)]
+                for ch in chars:
+                    ctx.add(z3.Or([ch.z() == ord(x) for x in SCRIPT_ALPHA]))
+                exprs.append(chars)
+                cfg = mk_struct("TestCaseConfig", detached=none(), environment=MapBuf([]), keep_crlf=none(), output_stream=none(),
+                                skip_document_code=none(), strip_ansi_escaping=none(), timeout=none(), wait=none())
+                tcs.append(new_ref(mk_struct("TestCase", title=StringBuf([]), shell_expression=StringBuf(list(chars)), expectations=VecBuf([]),
+                                             exit_code=none(), line_number=mk_int(i + 1, "usize"), config=cfg)))
+            ctx.notes["exprs"] = exprs
+            ctx.notes["combined"] = combined
+            run_cfg = mk_struct("TestCaseConfig", detached=none(), environment=MapBuf([]), keep_crlf=none(),
+                                output_stream=some(Agg("OutputStreamControl", "Combined", [])) if combined else none(),
+                                skip_document_code=none(), strip_ansi_escaping=none(), timeout=none(), wait=none())
+            return [Slice(tcs), new_ref(run_cfg), e2.concrete_str("SALT")]
+        return setup
+
+    def ends_in_continuation(chars):
+        """formula: the line ends in an odd number of backslashes"""
+        odd = False
+        for ch in chars:            # left to right: parity of the current run of backslashes
+            is_bs = char_eq(ch, SInt(92, "char"))
+            odd = z_and([is_bs, z_not(odd)])
+        return odd
+
+    def post(ctx, args, kind, value):
+        if kind != "return":
+            return False
+        if value.variant != "Ok":
+            return False
+        text = list(as_str(value.fields[0]).chars)
+        lines, cur = [], []
+        for ch in text:
+            if ch.concrete and ch.v == 10:
+                lines.append(cur)
+                cur = []
+            else:
+                cur.append(ch)
+        lines.append(cur)
+        is_text = lambda ln, t: len(ln) == len(t) and all(c.concrete and c.v == ord(x) for c, x in zip(ln, t))
+        conds = []
+        pos = 0
+        for i, expr in enumerate(ctx.notes["exprs"]):
+            if pos >= len(lines):
+                return False
+            conds.append(z_and([char_eq(a, b) for a, b in zip(lines[pos], expr)]) if len(lines[pos]) == len(expr) else False)
+            pos += 1
+            blanks = 0
+            while pos < len(lines) and len(lines[pos]) == 0:
+                blanks += 1
+                pos += 1
+            # the divider echo: concrete text starting with `echo "` and naming this index
+            if pos >= len(lines) or not all(c.concrete for c in lines[pos]):
+                return False
+            ftxt = "".join(chr(c.v) for c in lines[pos])
+            if not (ftxt.startswith('echo "') and "SALT::%d::" % i in ftxt):
+                return False
+            pos += 1
+            if not ctx.notes["combined"]:
+                if pos >= len(lines) or not all(c.concrete for c in lines[pos]) or not "".join(chr(c.v) for c in lines[pos]).startswith('1>&2 echo "'):
+                    return False
+                pos += 1
+            if blanks == 0:
+                conds.append(z_not(ends_in_continuation(expr)))     # otherwise bash joins the divider echo onto the command
+        if pos != len(lines):
+            return False
+        return z_and(conds)
+    inputs = []
+    for combined in (True, False):
+        for n in range(0, max_len + 1):
+            inputs.append(("1 expression of %d chars, combined=%s" % (n, combined), mk([n], combined)))
+        for n1 in range(0, min(2, max_len) + 1):
+            for n2 in range(0, min(2, max_len) + 1):
+                inputs.append(("2 expressions of %d/%d chars, combined=%s" % (n1, n2, combined), mk([n1, n2], combined)))
+    h = e2.Harness("cram_script_expressions_verbatim", "bash_script_executor::compile_script", inputs, post, native=None, judge=None,
+                   describe="compile_script: each expression verbatim on its own line, in order, followed by its divider echo as a command of its own "
+                            "(no backslash continuation into it)",
+                   bound="1 expression of <= %d chars, 2 expressions of <= 2 chars each, over %r; combined and separate streams" % (max_len, SCRIPT_ALPHA))
+    return h
+
+
+def replay_compile_script(rep, h, res):
+    import subprocess as sp
+    for model, r in res.raw_witnesses[:6]:
+        exprs = ["".join(chr(e2.model_int(model, c)) for c in e) for e in r.ctx.notes["exprs"]]
+        # a runnable twin: the same shape with `echo` in front, so that the effect of a swallowed divider shows in the output
+        twins = ["echo " + e for e in exprs]
+        nk, nv = NAT.call("script_execute_all", [twins, r.ctx.notes["combined"]])
+        alone = []
+        for t in twins:
+            p = sp.run(["bash", "-c", t], stdout=sp.PIPE, stderr=sp.STDOUT if r.ctx.notes["combined"] else sp.PIPE, timeout=20)
+            alone.append(list(p.stdout))
+        got = [o["stdout"] for o in nv["Ok"]] if nk == "return" and "Ok" in nv else None
+        if got != alone:
+            last = [e for e in exprs if e.endswith("\\")]
+            rep.violation("cram-script:%s" % ("expression-ending-in-backslash" if last else "expression-not-verbatim"),
+                          "the Cram executor runs %r and records %s; the commands alone print %s" % (twins, nv if got is None else [bytes(x) for x in got], [bytes(x) for x in alone]),
+                          {"kind": "eval", "fn": "script_execute_all", "args": [twins, r.ctx.notes["combined"]], "native": [nk, nv], "harness": h.name})
+        else:
+            rep.mismatches.append("%s: solver witness %r did not reproduce natively" % (h.name, exprs))
+
+
 def run(pid, tier):
     global NAT
     rep = Report(pid, tier, "other")
@@ -333,6 +449,20 @@ def run(pid, tier):
                       % (fake, nv), {"kind": "eval", "fn": "iterate_divided_output", "args": [list(fake)], "native": [nk, nv], "harness": "divider_lookalike"})
     rep.subclaim(name="divider_lookalike", engine="native replay of a concrete instance (the function has no salt parameter to make symbolic)",
                  bound="one payload line `~~~~~~~~EXECDIVIDER::OTHER::0::9`", what="a look-alike divider with a foreign salt stays output", result=st)
+    # (d) the Cram executor's script
+    hd = h_compile_script(3 if q else 4)
+    resd = e2.run_with_raw(prog, hd)
+    replay_compile_script(rep, hd, resd)
+    e2.record(rep, hd, resd)
+    ok_rows = [["echo one", "echo two \\\\", "printf 'a b'"], ["echo \"x\""]]
+    bad = 0
+    for row in ok_rows:
+        nk, nv = NAT.call("script_execute_all", [row, True])
+        alone = [list(subprocess.run(["bash", "-c", t], stdout=subprocess.PIPE, stderr=subprocess.STDOUT).stdout) for t in row]
+        if nk != "return" or "Ok" not in nv or [o["stdout"] for o in nv["Ok"]] != alone:
+            bad += 1
+            rep.mismatches.append("script replay oracle fails on ordinary expressions %s: %s" % (row, nv))
+    rep.subclaims[-1]["concrete_validation"] = {"inputs": len(ok_rows), "mismatches": bad, "function": "real BashScriptExecutor vs the commands run alone"}
     NAT.close()
     tot_paths = sum(s.get("paths", 0) for s in rep.subclaims)
     rep.coverage.update({
